@@ -50,7 +50,13 @@ namespace occa {
     }
 
     void sizeofNode::print(printer &pout) const {
-      pout << "sizeof(" << *value << ')';
+      // [sizeof(x)] is parsed as sizeof applied to the node [(x)],
+      // which already prints its parentheses
+      if (value->type() & exprNodeType::parentheses) {
+        pout << "sizeof" << *value;
+      } else {
+        pout << "sizeof(" << *value << ')';
+      }
     }
 
     void sizeofNode::debugPrint(const std::string &prefix) const {
